@@ -3,7 +3,8 @@
 //! compared with an independently built Plutus Data value: constructor index = index of the case in
 //! the type declaration, fields in DECLARATION order whatever order the construction site writes
 //! them in, integers exact (CBOR int inside +-2^64, bignum beyond), bytes unchanged.
-//! BOUND: 3 templates (record with permuted fields, variant case with permuted fields, unit-like case)
+//! BOUND: 5 templates (record with permuted fields, variant cases with permuted fields, a case named `Default` in a
+//! non-first position, a field-less last case)
 //! x 9 boundary integers.
 use std::collections::BTreeMap;
 use tx3_cardano::pallas::codec::utils::{Int, MaybeIndefArray};
@@ -18,6 +19,7 @@ party Sender;
 party Receiver;
 type State { first: Int, second: Int, third: Bytes, }
 type Action { Stop, Go { x: Int, }, Turn { y: Int, z: Bytes, }, }
+type Mode { Fast { speed: Int, }, Default { level: Int, }, Idle, }
 tx record_permuted(n: Int) {
     input source { from: Sender, min_amount: Ada(2000000) + fees, }
     output { to: Receiver, amount: Ada(2000000), datum: State { third: 0xabcd, second: 2, first: n, }, }
@@ -26,6 +28,16 @@ tx record_permuted(n: Int) {
 tx variant_permuted(n: Int) {
     input source { from: Sender, min_amount: Ada(2000000) + fees, }
     output { to: Receiver, amount: Ada(2000000), datum: Action::Turn { z: 0xff, y: n, }, }
+    output { to: Sender, amount: source - Ada(2000000) - fees, }
+}
+tx case_named_default(n: Int) {
+    input source { from: Sender, min_amount: Ada(2000000) + fees, }
+    output { to: Receiver, amount: Ada(2000000), datum: Mode::Default { level: n, }, }
+    output { to: Sender, amount: source - Ada(2000000) - fees, }
+}
+tx fieldless_last_case(n: Int) {
+    input source { from: Sender, min_amount: Ada(2000000) + fees, }
+    output { to: Receiver, amount: Ada(2000000), datum: Mode::Idle {}, }
     output { to: Sender, amount: source - Ada(2000000) - fees, }
 }
 tx variant_second(n: Int) {
@@ -70,6 +82,8 @@ fn main() {
             ("record_permuted", constr_data(0, vec![int_data(n), int_data(2), bytes_data(&[0xab, 0xcd])])),
             ("variant_permuted", constr_data(2, vec![int_data(n), bytes_data(&[0xff])])),
             ("variant_second", constr_data(1, vec![int_data(n)])),
+            ("case_named_default", constr_data(1, vec![int_data(n)])),
+            ("fieldless_last_case", constr_data(2, vec![])),
         ] {
             cases += 1;
             let input = format!("tx={name} n={n}");
